@@ -9,7 +9,7 @@ from ..harness import Violation
 ID = "C01"
 LEVEL = "exploration"
 RULE = ("Hypothesis-generated (output bytes, partition into WRTE payloads, operation, decode flag, earlier operations, "
-        "remote ids, eager/duplicate CLSE, abandoned earlier stream, earlier OPEN answered only after its caller timed out, read-fragmentation tape, transport flavour, API); "
+        "remote ids, eager/duplicate CLSE, legacy zero host ids on device packets, abandoned earlier stream, earlier OPEN answered only after its caller timed out, read-fragmentation tape, transport flavour, API); "
         "oracle = the simulator's per-stream record of delivered payloads. Non-trivial: >=2 chunks, or a multi-byte UTF-8 "
         "sequence split across chunks, or stale traffic of another stream, or fragmented reads. Distinct = distinct case hash.")
 ASSUMPTIONS = ["device simulator is a faithful adbd (stop-and-wait, ids, CLSE rules)",
@@ -79,7 +79,8 @@ def cases(draw):
     return {
         "api": draw(st.sampled_from(["sync", "async"])),
         "device": {"services": services, "rids": draw(sc.rid_list()), "eager_clse": draw(st.lists(st.booleans(), max_size=4)),
-                   "dup_clse": draw(st.booleans()), "open_delay": slow},
+                   "dup_clse": draw(st.booleans()), "open_delay": slow,
+                   "zero_arg1": draw(st.one_of(st.just([]), st.just([]), st.lists(st.booleans(), min_size=1, max_size=5)))},
         "dev_tape": draw(sc.dev_tape(20)),
         "transport": {"flavour": draw(sc.flavour()), "frag": frag},
         "connect": {},
